@@ -50,6 +50,11 @@ inline uint64_t mix64(const void* p, size_t n, uint64_t h = 0x9E3779B97F4A7C15ul
 	return h ^ (h >> 32);
 }
 
+// members a refactoring may remove or rename without touching behaviour are read through SFINAE helpers: the harness must keep compiling (a check that does not
+// build is a broken check, seeded change agent8_C03 removed randomx_vm::cacheKey) - such a member is only part of the state digest, never of an oracle
+template<class T> auto opt_cache_key(T* v, int) -> decltype(std::string(v->cacheKey)) { return std::string(v->cacheKey); }
+template<class T> std::string opt_cache_key(T*, long) { return std::string(); }
+
 struct World {
 	const Alphabet* A = nullptr;
 	// real objects
@@ -161,14 +166,14 @@ struct World {
 		uint64_t h = 0x5157ull; auto add = [&](const void* p, size_t n) { h = mix64(p, n, h); }; auto adds = [&](const std::string& s) { h = mix64(s.data(), s.size(), h ^ 0x55); }; auto addi = [&](uint64_t v) { h = mix64(&v, 8, h); };
 		for (int i = 0; i < A->ncaches; ++i) {
 			addi(cache[i] ? 1 : 0); if (!cache[i]) continue;
-			randomx_cache* c = cache[i]; addi(cache_jit[i]); addi((uint64_t)cache_key[i] + 7); adds(c->cacheKey); addi(c->isInitialized());
+			randomx_cache* c = cache[i]; addi(cache_jit[i]); addi((uint64_t)cache_key[i] + 7); adds(opt_cache_key(c, 0)); addi(c->isInitialized());
 			if (cache_key[i] >= 0) { add(c->memory, randomx::CacheSize); for (auto& p : c->programs) { addi(p.size); addi((uint64_t)p.addrReg); add(p.programBuffer, 8 * p.size); } add(c->reciprocalCache.data(), 8 * c->reciprocalCache.size());
 				if (c->jit) add(c->jit->getCode(), c->jit->getCodeSize()); }
 		}
 		addi(ds ? 1 : 0); if (ds) { addi((uint64_t)ds_key + 7); if (ds_key >= 0) add(ds->memory, randomx::DatasetSize); }
 		addi(vm ? 1 : 0);
 		if (vm) {
-			addi((uint64_t)vm->vmFlags); adds(vm->cacheKey); add(vm->tempHash, 64); add(vm->scratchpad, randomx::ScratchpadSize); add(&vm->reg, 256); add(&vm->program, sizeof(randomx::Program));
+			addi((uint64_t)vm->vmFlags); adds(opt_cache_key(vm, 0)); add(vm->tempHash, 64); add(vm->scratchpad, randomx::ScratchpadSize); add(&vm->reg, 256); add(&vm->program, sizeof(randomx::Program));
 			add(&vm->config, sizeof vm->config); addi(vm->mem.mx); addi(vm->mem.ma); addi(vm->datasetOffset);
 			adds(ident(vm->mem.memory)); adds(ident(vm->cachePtr));
 			addi((uint64_t)bound_cache + 3); addi(light_valid() || fast_valid()); addi(bound_ds); addi((uint64_t)pending + 3);
